@@ -147,6 +147,11 @@ def h_indep(ctx, cls, n, n_nan, ypat, params, mode):
                 return "ok"
             except AssertionError as e:
                 return "AssertionError"
+            except Violation:
+                raise
+            except Exception as e:
+                import traceback
+                ctx.require(False, "C08.internal-error", f"{cls}.fit on features {obj.features} raised {type(e).__name__}: {str(e)[:140]} | {traceback.format_exc(limit=-2)[-300:]}")
 
         # reference: every feature fitted ALONE
         ref = {}
